@@ -190,6 +190,9 @@ func C11() int {
 			outLines := splitLines(out)
 			c.Count("runs", 1)
 			c.Eval(fmt.Sprintf("%s|run%d", label, ri))
+			if ri == len(jb.seq)-1 && len(jb.seq) == 3 {
+				c.Sample(map[string]any{"initial_state": jb.st.name, "sequence": jb.seq, "run": ri + 1, "exit": r.Exit, "key_path_before": before.kind, "key_path_after": after.kind, "key_bytes_after": len(after.bytes), "mode_after": fmt.Sprintf("%04o", after.mode), "output_lines": len(outLines), "stderr": short(bytes.TrimSpace(r.Stderr), 120)})
+			}
 			viol := func(kind, what string) {
 				c.Violation(kind+"|"+jb.st.name, fmt.Sprintf("state %q, run %d of %v: %s (exit %d, stderr: %s)", jb.st.name, ri+1, jb.seq, what, r.Exit, short(bytes.TrimSpace(r.Stderr), 160)),
 					map[string]any{"state": jb.st.name, "sequence": jb.seq, "run": ri + 1})
